@@ -82,6 +82,10 @@ func main() {
 	}})
 	do("runtime/proc.go", []patch{
 		{
+			"func retake(now int64) uint32 {\n\tn := 0\n",
+			"func retake(now int64) uint32 {\n\tn := 0\n\tif true {\n\t\treturn 0 // verif: never take a P away (no time slicing, no syscall hand-off)\n\t}\n",
+		},
+		{
 			"const forcePreemptNS = 10 * 1000 * 1000 // 10ms",
 			"const forcePreemptNS = 36000 * 1000 * 1000 * 1000 // verif: no time-sliced preemption",
 		},
@@ -94,6 +98,20 @@ func main() {
 			"\t\t\tj := simselectn(i + 1)\n\t\t\tpp.runq[off(i)], pp.runq[off(j)] = pp.runq[off(j)], pp.runq[off(i)]\n",
 		},
 	})
+
+	// 2a. timers of one bubble that expire at the same fake instant are ordered by a per-timer random
+	// value drawn from the per-M generator; draw it from the seeded global stream instead.
+	do("runtime/time.go", []patch{{
+		"\t\t\tt.rand = cheaprand()\n",
+		"\t\t\tt.rand = simselectn(1 << 31)\n",
+	}})
+
+	// 2b. sync.Mutex starvation mode is entered after 1ms of *real* waiting time, which makes lock
+	// hand-off order depend on machine load; in the simulation a waiter never starves by the wall clock.
+	do("internal/sync/mutex.go", []patch{{
+		"starving = starving || runtime_nanotime()-waitStartTime > starvationThresholdNs",
+		"starving = starving || (false && runtime_nanotime()-waitStartTime > starvationThresholdNs)",
+	}})
 
 	// 3. added file: the streams, their seeding entry point, and a
 	// goroutine-inherited tag (reuses the pprof label slot, which the
